@@ -34,9 +34,9 @@ def _corrupt(evs):
 def plans(tier):
     if tier == "quick":
         return [("d1-1d", 4, 2), ("d1-2d", 3, 6), ("d1-rspec", 4, 1), ("d2-lean1", 2, 4), ("d2-lean2", 2, 16), ("d2-persist-follow2", 2, 1),
-                ("d1-random", 8, 1), ("d1-win-q", 8, 4)]
+                ("d1-random", 8, 1), ("d1-win-q", 8, 4), ("d2-named-creation", 4, 1), ("d3-sr1", 4, 1)]
     return [("d1-1d-wide", 8, 1), ("d1-2d", 8, 1), ("d1-rspec", 16, 1), ("d2-lean1", 3, 1), ("d2-lean2", 2, 2), ("d2-lean3", 2, 2),
-            ("d2-persist-follow2", 4, 1), ("d1-random", 64, 1), ("d1-win", 32, 1)]
+            ("d2-persist-follow2", 4, 1), ("d1-random", 64, 1), ("d1-win", 32, 1), ("d2-named-creation", 16, 1), ("d3-sr1", 4, 1), ("d3-chain1", 2, 1)]
 
 
 def run(chk):
